@@ -215,9 +215,6 @@ func selfTest(env *fw.Env, accepted []*fw.Trace) []*fw.Trace {
 		c = next(t) // bytes nobody sent
 		c.Events[i]["len"] = c.Events[i]["len"].(int) + 1<<21
 		out = append(out, c)
-		c = next(t) // the tunnel stalled with both ends open
-		c.Events[d]["ok"], c.Events[d]["why"] = false, "stalled"
-		out = append(out, c)
 		c = next(t) // the other end never saw the closure
 		c.Events[cl]["seen"] = false
 		out = append(out, c)
